@@ -471,6 +471,56 @@ def _bind(h: _Helper, call: ast.Call) -> dict[str, ast.expr] | None:
     return b
 
 
+def _bring_names_along(target: Module, source: Module, nodes: list[ast.AST]) -> None:
+    """Code inlined from `source` into `target` keeps referring to `source`'s module-level names: every such name that `target` does not bind itself is
+    imported into `target` the way `source` sees it (so that call resolution in the canonical tree finds the same callee)."""
+    if target is source:
+        return
+    def top_names(mod: Module) -> dict[str, ast.stmt]:
+        out: dict[str, ast.stmt] = {}
+        for st in mod.tree.body:
+            if isinstance(st, (ast.Import, ast.ImportFrom)):
+                for a in st.names:
+                    out[(a.asname or a.name).split(".")[0]] = st
+            elif isinstance(st, (*FuncNode, ast.ClassDef)):
+                out[st.name] = st
+            elif isinstance(st, (ast.Assign, ast.AnnAssign)):
+                for t in (st.targets if isinstance(st, ast.Assign) else [st.target]):
+                    if isinstance(t, ast.Name):
+                        out[t.id] = st
+            elif isinstance(st, ast.If):  # `if TYPE_CHECKING:` imports
+                for s2 in st.body:
+                    if isinstance(s2, (ast.Import, ast.ImportFrom)):
+                        for a in s2.names:
+                            out.setdefault((a.asname or a.name).split(".")[0], s2)
+        return out
+    have, src_names = top_names(target), top_names(source)
+    used = {n.id for x in nodes for n in ast.walk(x) if isinstance(n, ast.Name) and isinstance(n.ctx, ast.Load)}
+    for nm in sorted(used):
+        if nm in have or nm not in src_names:
+            continue
+        st = src_names[nm]
+        if isinstance(st, ast.ImportFrom):
+            al = next(a for a in st.names if (a.asname or a.name) == nm)
+            new = ast.ImportFrom(module=st.module, names=[ast.alias(name=al.name, asname=al.asname)], level=st.level)
+            if st.level:  # relative import: make it absolute from the source module's package
+                pkg = source.name.rsplit(".", st.level)[0]
+                new = ast.ImportFrom(module=f"{pkg}.{st.module}" if st.module else pkg, names=new.names, level=0)
+        elif isinstance(st, ast.Import):
+            al = next(a for a in st.names if (a.asname or a.name).split(".")[0] == nm)
+            new = ast.Import(names=[ast.alias(name=al.name, asname=al.asname)])
+        else:
+            new = ast.ImportFrom(module=source.name, names=[ast.alias(name=nm, asname=None)], level=0)
+        ast.fix_missing_locations(new)
+        # after the module docstring / __future__ imports
+        pos = 0
+        for i, b in enumerate(target.tree.body):
+            if (isinstance(b, ast.Expr) and isinstance(b.value, ast.Constant)) or (isinstance(b, ast.ImportFrom) and b.module == "__future__"):
+                pos = i + 1
+        target.tree.body.insert(pos, new)
+        have[nm] = new
+
+
 class Inliner:
     def __init__(self, mods: dict[str, Module], inv: dict) -> None:
         self.mods = mods
@@ -588,6 +638,7 @@ class Inliner:
 
     def _inline_in(self, mod: Module, cls: ast.ClassDef | None, fn: ast.FunctionDef) -> bool:
         changed = False
+        self._cur_mod = mod
         caller_names = {n.id for n in ast.walk(fn) if isinstance(n, ast.Name)} | set(_params(fn))
 
         def rewrite_block(stmts: list[ast.stmt]) -> list[ast.stmt]:
@@ -704,6 +755,7 @@ class Inliner:
             new.value = value  # type: ignore[attr-defined]
             tail.append(new)
         caller_names.update(n.id for x in [*pre, *body] for n in ast.walk(x) if isinstance(n, ast.Name))
+        _bring_names_along(self._cur_mod, h.mod, [*body, *tail])
         return [*pre, *body, *tail]
 
     def _inline_exprs(self, mod: Module, cls: ast.ClassDef | None, fn: ast.FunctionDef, s: ast.stmt) -> bool:
@@ -743,6 +795,7 @@ class Inliner:
                         n.lineno, n.end_lineno = node.lineno, getattr(node, "end_lineno", node.lineno)
                         n.col_offset, n.end_col_offset = node.col_offset, getattr(node, "end_col_offset", node.col_offset)
                 hit = True
+                _bring_names_along(mod, h.mod, [expr])
                 outer.log.append(f"{mod.relpath}:{node.lineno} {fn.name}: inlined new expression helper {h.node.name}()")
                 return ast.copy_location(expr, node)
 
